@@ -3,7 +3,7 @@
    the language fallbacks), plus the pattern pins and the worked examples. *)
 From Coq Require Import ZArith Lia Permutation Sorted.
 From Wz Require Export lib.Bytes C17.LibSort C17.Base C17.Gen C17.Model C17.Spec
-  C17.ProofsOrder C17.ProofsOptimal C17.ProofsParse C17.ProofsFamilies.
+  C17.ProofsOrder C17.ProofsOptimal C17.ProofsParse C17.ProofsFamilies C17.ProofsRoundtrip.
 Open Scope N_scope.
 
 (* the pattern texts the hand-written matchers stand for *)
@@ -18,6 +18,9 @@ Definition pinned_patterns : bool :=
   && list_eqb parameter_token_value_re_text
        [91; 92; 119; 33; 35; 36; 37; 38; 39; 42; 43; 92; 45; 46; 94; 96; 124; 126; 93; 43]
   && (parameter_token_value_re_flags =? 256)
+  && list_eqb charset_value_re_text
+       [40; 91; 92; 119; 33; 35; 36; 37; 38; 42; 43; 92; 45; 46; 94; 96; 124; 126; 93; 42; 41; 39; 91; 92; 119; 33; 35; 36; 37; 38; 42; 43; 92; 45; 46; 94; 96; 124; 126; 93; 42; 39; 40; 91; 92; 119; 33; 35; 36; 37; 38; 39; 42; 43; 92; 45; 46; 94; 96; 124; 126; 93; 43; 41]
+  && (charset_value_re_flags =? 320)
   && sort_key_specificity_then_quality_descending.
 Lemma patterns_pinned : pinned_patterns = true.
 Proof. vm_compute. reflexivity. Qed.
@@ -46,6 +49,19 @@ Proof.
            base_rule, lang_rule, charset_rule, mime_rule, base_specificity, mime_specificity,
            base_specificity_rule, mime_specificity_rule, str_eqb, str_neqb;
     try (apply map_ext; intro); clear; batoms.
+Qed.
+
+(* C17_optimal on header text: a header written from plain items *)
+Lemma header_text_optimal tbl f items offers :
+  Forall plain_item items -> offers_valid f offers ->
+  exists acc res,
+    parse_accept f (render_header items) = Ok acc /\
+    best_match (spec_of f) (matches_of tbl f) acc offers = Ok res /\
+    choice (spec_of f) (mb_of tbl f) items offers res.
+Proof.
+  intros Hp Hv. destruct (accept_roundtrip f items Hp) as [Ei Ea].
+  destruct (negotiation_optimal tbl f _ _ offers Ea Hv) as (items' & res & Ei' & Hb & Hc).
+  rewrite Ei in Ei'. injection Ei' as <-. eauto.
 Qed.
 
 (* ---------------------------------------------------------------- worked examples *)
@@ -84,3 +100,27 @@ Lemma example_language_fallback :
   family_best_match [] FLang [([101; 110], (1%Z, 0))] [[101; 110; 103]; [101; 110; 45; 85; 83]]
   = Ok (Some [101; 110; 45; 85; 83]).
 Proof. split; vm_compute; reflexivity. Qed.
+
+(* gzip;q=0.5, br, *;q=0.125 written by the serialiser and read back *)
+Definition ex_items : list item := [([103; 122; 105; 112], (5%Z, 1)); ([98; 114], (1%Z, 0)); ([42], (125%Z, 3))].
+Lemma example_roundtrip :
+  Forall plain_item ex_items /\
+  render_header ex_items = [103; 122; 105; 112; 59; 113; 61; 48; 46; 53; 44; 98; 114; 44; 42; 59; 113; 61; 48; 46; 49; 50; 53] /\
+  parse_accept FBase (render_header ex_items)
+  = Ok [([98; 114], (1%Z, 0)); ([103; 122; 105; 112], (5%Z, 1)); ([42], (125%Z, 3))] /\
+  to_header [([98; 114], (1%Z, 0)); ([103; 122; 105; 112], (50%Z, 2)); ([42], (0%Z, 0))]
+  = [98; 114; 44; 103; 122; 105; 112; 59; 113; 61; 48; 46; 53; 44; 42; 59; 113; 61; 48; 46; 48].
+Proof.
+  split.
+  - apply Forall_cons; [split; [reflexivity|]; right; cbn [fst snd]; unfold pow10; cbn; lia|].
+    apply Forall_cons; [split; [reflexivity|]; left; reflexivity|].
+    apply Forall_cons; [split; [reflexivity|]; right; cbn [fst snd]; unfold pow10; cbn; lia|]. constructor.
+  - repeat split; vm_compute; reflexivity.
+Qed.
+
+(* the float contract has a model: the decimal rationals themselves *)
+Lemma example_float_contract :
+  exists (F : Type) (fl : Qd -> F) (flt fle feq : F -> F -> bool),
+    forall a b, sig15 a = true -> sig15 b = true ->
+      flt (fl a) (fl b) = qltb a b /\ fle (fl a) (fl b) = qleb a b /\ feq (fl a) (fl b) = qeqb a b.
+Proof. exists Qd, (fun q => q), qltb, qleb, qeqb. intros. repeat split. Qed.
